@@ -123,6 +123,26 @@ def run(ctx, ck) -> None:
         ok = (ne and x == recip and y in zero) or (eq and y == recip and x in zero)
     ck.expect('I2', ok, d.node, 'values of the inverse = where(d != 0, 1/d, 0): zero entries map to zero (Moore-Penrose), never 1/0',
               f'the pseudo-inverse values are {show(t)}: the reciprocal of the stored values is not guarded by "those same values != 0" with 0 as the other branch', instance='guarded reciprocal')
+    # the guarded values are the ones mv applies: mv reaches the accessor on self, and nothing on the way reads the raw
+    # values or the inverted operator
+    from .c04 import _self_closure
+
+    mv_r = table.resolve(dinv, 'mv')
+    if mv_r is None or not isinstance(mv_r.node, ast.FunctionDef):
+        raise AnalysisError('anchor vanished: DiagonalInverseOperator.mv')
+    reach = _self_closure(table, dinv, mv_r.node)
+    raw = []
+    for name, f in [('mv', mv_r.node)] + [(k, v) for k, v in reach.items() if v is not d.node]:
+        me = f.args.args[0].arg
+        for n in ast.walk(f):
+            if isinstance(n, ast.Attribute) and isinstance(n.value, ast.Name) and n.value.id == me and n.attr in ('_diagonal', 'operator'):
+                up = getattr(n, '_parent', None)
+                if n.attr == '_diagonal' and isinstance(up, ast.Attribute) and up.attr in ('shape', 'ndim', 'dtype', 'size'):
+                    continue  # shape metadata only
+                raw.append(f'{name} reads self.{n.attr}')
+    ck.expect('I2', reach.get('diagonal') is d.node and not raw, mv_r.node, 'DiagonalInverseOperator.mv applies the guarded values: it reaches the `diagonal` accessor of the inverse and never the raw values',
+              'DiagonalInverseOperator.mv does not apply the guarded reciprocal: ' + ('; '.join(raw[:2]) if raw else 'the accessor `diagonal` of the inverse is not reached from mv')
+              + ' (a zero entry then gives 1/0 = inf, and inf - inf = nan)', instance='mv applies the guarded values')
     # the inverse re-uses values/axes/structure
     init = table.resolve(dinv, '__init__')
     ok_init = False
@@ -191,13 +211,27 @@ def run(ctx, ck) -> None:
         ck.expect('I5', ok, fn, 'A.I(y) = linear_solve(operand, y).value', f'the lazy inverse does not solve with its operand as matrix and its input as right-hand side: {why}', instance='solve wiring')
 
 
+    # I5b: the dense form of every lazy inverse is the matrix inverse of the operand's dense form (schema shared with C04.L2)
+    from . import c04
+
+    lazy = table.get(f'{CORE}.AbstractLazyInverseOperator')
+    for cls in [lazy] + [c for c in table.subclasses(lazy, strict=True)]:
+        am = table.resolve(cls, 'as_matrix')
+        if am is None or not isinstance(am.node, ast.FunctionDef):
+            continue
+        schema = c04.SCHEMAS.get(am.owner.name)
+        if am.owner is lazy or schema is c04.s_lazy_inverse:
+            ok, why = c04.s_lazy_inverse(world, table, cls, am.node)
+            ck.expect('I5', ok, am.node, f'{cls.name}.as_matrix: {why}', f'{cls.name}.as_matrix is not the general matrix inverse of the operand matrix: {why} '
+                      '(the lazy orthogonal inverses inherit it, and their operands are neither symmetric nor positive definite)', instance=f'{cls.name} dense inverse')
+
     # ------------------------------------------------------------------ I6 the solve uses the configuration captured at construction
     from . import c19
 
     sub = type(ck)(ck.pid)
     c19.run(ctx, sub)
     for o in sub.obs:
-        if o.rule.endswith(('K6', 'K7')):
+        if o.rule.endswith(('K4', 'K6', 'K7')):
             o.rule = f'{ck.pid}.I6'
             ck.obs.append(o)
     ck.floor('I6', sum(1 for o in ck.obs if o.rule.endswith('I6')), 6, 'capture/use obligations of the solver configuration')
